@@ -105,6 +105,7 @@ func seqProfile(prop string, g *Gen, cfg *Config, rng *SplitMix) (steps int) {
 		}
 		steps = 8 + rng.Intn(10)
 	case "C20":
+		g.Links = true
 		g.RepeatPct = 35
 		g.W["file"] = 18
 		g.W["set"] = 35
